@@ -80,15 +80,15 @@ type Monitor interface {
 
 type BaseMonitor struct{}
 
-func (BaseMonitor) Init(*World)                                  {}
-func (BaseMonitor) AfterBegin(*World, abci.ResponseBeginBlock)   {}
-func (BaseMonitor) BeforeTx(*World, *TxCtx)                      {}
-func (BaseMonitor) AfterTx(*World, *TxCtx)                       {}
-func (BaseMonitor) AfterCheck(*World, *TxCtx)                    {}
-func (BaseMonitor) AfterEnd(*World, abci.ResponseEndBlock)       {}
-func (BaseMonitor) AfterBlock(*World)                            {}
-func (BaseMonitor) OnQuery(*World, *QuerySpec, bool)             {}
-func (BaseMonitor) AtEnd(*World)                                 {}
+func (BaseMonitor) Init(*World)                                {}
+func (BaseMonitor) AfterBegin(*World, abci.ResponseBeginBlock) {}
+func (BaseMonitor) BeforeTx(*World, *TxCtx)                    {}
+func (BaseMonitor) AfterTx(*World, *TxCtx)                     {}
+func (BaseMonitor) AfterCheck(*World, *TxCtx)                  {}
+func (BaseMonitor) AfterEnd(*World, abci.ResponseEndBlock)     {}
+func (BaseMonitor) AfterBlock(*World)                          {}
+func (BaseMonitor) OnQuery(*World, *QuerySpec, bool)           {}
+func (BaseMonitor) AtEnd(*World)                               {}
 
 type Stats struct {
 	Blocks, Txs, TxOK, TxFail, AnteFail int
@@ -106,34 +106,34 @@ func newStats() *Stats {
 }
 
 type World struct {
-	T        *Trace
-	Actors   []*Actor
-	Ref      *Node
-	Replicas []*Node
-	Log      []BlockRec
-	AppState []byte
-	Now      time.Time // block time of the block being executed / last executed
-	Hdr      tmproto.Header
-	InBlock  bool
-	BlockIdx int
-	Mons     []Monitor
-	Viol     []Violation
-	St       *Stats
-	ev       bytes.Buffer
-	InBubble bool
-	M        *Models
-	lastBytes map[int][]byte
-	checkSeq  map[string]uint64
+	T               *Trace
+	Actors          []*Actor
+	Ref             *Node
+	Replicas        []*Node
+	Log             []BlockRec
+	AppState        []byte
+	Now             time.Time // block time of the block being executed / last executed
+	Hdr             tmproto.Header
+	InBlock         bool
+	BlockIdx        int
+	Mons            []Monitor
+	Viol            []Violation
+	St              *Stats
+	ev              bytes.Buffer
+	InBubble        bool
+	M               *Models
+	lastBytes       map[int][]byte
+	checkSeq        map[string]uint64
 	StopOnViolation bool
-	KnownClasses map[string]bool // classes listed in known_findings.json: recorded, but the run goes on
-	stopped  bool
-	EndedBy  string
-	scratch  string
-	Fork     *Fork
-	Gen      *Gen
-	PropOverride string
-	armedC15 bool
-	wallAdvanced int64
+	KnownClasses    map[string]bool // classes listed in known_findings.json: recorded, but the run goes on
+	stopped         bool
+	EndedBy         string
+	scratch         string
+	Fork            *Fork
+	Gen             *Gen
+	PropOverride    string
+	armedC15        bool
+	wallAdvanced    int64
 }
 
 func (w *World) Ev(format string, a ...interface{}) {
